@@ -406,6 +406,7 @@ func cmdVerify(args []string) int {
 			default:
 				or.Status = "undischarged"
 				or.Output = r.output
+				or.Model = r.model // candidate only
 				if exit == 0 {
 					exit = 1
 				}
